@@ -293,11 +293,69 @@ func (bc *boundsCtx) below(s *Symer, lits []Lit, i, x ssa.Value, strict bool) bo
 				return true
 			}
 		} else if !strict {
-			// !(len(x) < i)  =>  i <= len(x)
-			if a := lenArg(l.X); a != nil && sameVal(s, a, x) && sameVal(s, l.Y, i) {
+			// !(len(x) < i)  =>  i <= len(x);  also for a tested value P >= i
+			if a := lenArg(l.X); a != nil && sameVal(s, a, x) && (sameVal(s, l.Y, i) || geqValue(s, l.Y, i)) {
 				return true
 			}
 		}
+	}
+	return false
+}
+
+// geqValue: p >= i by construction, in 64-bit arithmetic that cannot overflow:
+// p = i + k (k >= 0) or p = (i + k) &^ k with k = 2^n - 1 (rounding up), where i
+// is a length or was widened from an unsigned type of at most 32 bits.
+func geqValue(s *Symer, p, i ssa.Value) bool {
+	bo, ok := p.(*ssa.BinOp)
+	if !ok || !isWideInt(bo.Type()) {
+		return false
+	}
+	switch bo.Op {
+	case token.AND_NOT:
+		k, isK := foldInt(bo.Y)
+		add, isAdd := bo.X.(*ssa.BinOp)
+		if isK && k > 0 && k&(k+1) == 0 && isAdd && add.Op == token.ADD && isWideInt(add.Type()) {
+			if k2, ok := foldInt(add.Y); ok && k2 == k && sameVal(s, add.X, i) && smallNonNegative(add.X) {
+				return true
+			}
+		}
+	case token.ADD:
+		if k, ok := foldInt(bo.Y); ok && k >= 0 && k < 1<<32 && sameVal(s, bo.X, i) && smallNonNegative(bo.X) {
+			return true
+		}
+	}
+	return false
+}
+
+func isWideInt(t types.Type) bool {
+	b, ok := t.Underlying().(*types.Basic)
+	if !ok {
+		return false
+	}
+	switch b.Kind() {
+	case types.Int, types.Int64, types.Uint, types.Uint64:
+		return true
+	}
+	return false
+}
+
+// smallNonNegative: v is in [0, 2^32): a length, or a widening of an unsigned
+// value of at most 32 bits.
+func smallNonNegative(v ssa.Value) bool {
+	if lenArg(v) != nil {
+		return true
+	}
+	cv, ok := v.(*ssa.Convert)
+	if !ok {
+		return false
+	}
+	b, ok := cv.X.Type().Underlying().(*types.Basic)
+	if !ok {
+		return false
+	}
+	switch b.Kind() {
+	case types.Uint8, types.Uint16, types.Uint32:
+		return isWideInt(cv.Type())
 	}
 	return false
 }
